@@ -2,7 +2,7 @@
 # usage: tools/seed_sweep.sh <first-seed> <last-seed> [ID...]  — zero-alarm sweep on the current tree
 cd "$(dirname "$0")/.."
 a=$1; b=$2; shift 2
-IDS=("$@"); [ ${#IDS[@]} -eq 0 ] && IDS=(C01 C03 C04 C07 C08 C09 C10 C11 C14 C16 C17 C18)
+IDS=("$@"); [ ${#IDS[@]} -eq 0 ] && IDS=(C01 C03 C04 C07 C08 C09 C10 C11 C14 C15 C16 C17 C18 C19 C20)
 ./check build >/dev/null 2>&1 || { echo BUILD-FAILED; exit 2; }
 for seed in $(seq $a $b); do
   for id in "${IDS[@]}"; do
